@@ -19,7 +19,9 @@
 using namespace psv;
 
 // ------------------------------------------------------------------------------------------------ libc layer
-struct Op { char kind; long off; long len; std::vector<unsigned char> data; };
+struct Op { char kind; long off; long len; std::vector<unsigned char> data; const char* step; int stepno; };
+static const char* g_cur = "-";   // the top-level cfitsio call (step) in progress
+static int g_curno = -1;
 static std::vector<Op> g_log;
 static bool g_win = false;          // recording window (only cfitsio does I/O inside it)
 static bool g_keep = false;         // keep op data
@@ -33,7 +35,7 @@ enum FaultKind { F_ENOSPC = 0, F_EFBIG = 1, F_SHORT = 2, F_FLUSH = 3, F_CLOSE = 
 static const char* kindname[] = {"enospc", "efbig", "short", "fflush", "fclose", "enospc_sticky"};
 
 static void logop(char k, long off, long len, const void* p) {
-  Op o; o.kind = k; o.off = off; o.len = len;
+  Op o; o.kind = k; o.off = off; o.len = len; o.step = g_cur; o.stepno = g_curno;
   if (g_keep && p) o.data.assign((const unsigned char*)p, (const unsigned char*)p + len);
   g_log.push_back(o);
 }
@@ -92,68 +94,68 @@ static int g_depth = 0;
 static int g_step_fail = -1;   // index of the cfitsio step to fail directly
 static int g_step_fired = 0;
 #define TOP (g_win && g_depth == 0)
-struct Depth { Depth() { g_depth++; } ~Depth() { g_depth--; } };
+struct Depth { Depth(const char* n) { g_depth++; g_cur = n; g_curno = (int)g_trace.size(); } ~Depth() { g_depth--; g_cur = "-"; g_curno = -1; } };
 static bool inject_here() { return (int)g_trace.size() == g_step_fail; }
 
 extern "C" int remove(const char* path) {
   static auto real = (int (*)(const char*))dlsym(RTLD_NEXT, "remove");
-  if (TOP) { Depth d; int r = real(path); g_trace.push_back({"remove", r}); return r; }
+  if (TOP) { Depth d("remove"); int r = real(path); g_trace.push_back({"remove", r}); return r; }
   if (g_win) logop('X', 0, 0, nullptr);
   return real(path);
 }
 extern "C" int ffinit(fitsfile** fptr, const char* name, int* status) {
   static auto real = (int (*)(fitsfile**, const char*, int*))dlsym(RTLD_NEXT, "ffinit");
   if (!TOP) return real(fptr, name, status);
-  Depth d;
+  Depth d("init");
   if (inject_here()) { g_step_fired++; *fptr = nullptr; *status = FILE_NOT_CREATED; g_trace.push_back({"init", *status}); return *status; }
   int r = real(fptr, name, status); g_trace.push_back({"init", r}); return r;
 }
 extern "C" int ffimem(fitsfile** fptr, void** buf, size_t* sz, size_t delta, void* (*re)(void*, size_t), int* status) {
   static auto real = (int (*)(fitsfile**, void**, size_t*, size_t, void* (*)(void*, size_t), int*))dlsym(RTLD_NEXT, "ffimem");
   if (!TOP) return real(fptr, buf, sz, delta, re, status);
-  Depth d;
+  Depth d("imem");
   if (inject_here()) { g_step_fired++; *fptr = nullptr; *status = MEMORY_ALLOCATION; g_trace.push_back({"imem", *status}); return *status; }
   int r = real(fptr, buf, sz, delta, re, status); g_trace.push_back({"imem", r}); return r;
 }
 extern "C" int ffcrim(fitsfile* f, int bitpix, int naxis, long* naxes, int* status) {
   static auto real = (int (*)(fitsfile*, int, int, long*, int*))dlsym(RTLD_NEXT, "ffcrim");
   if (!TOP) return real(f, bitpix, naxis, naxes, status);
-  Depth d;
+  Depth d("crim");
   if (inject_here()) { g_step_fired++; *status = WRITE_ERROR; g_trace.push_back({"crim", *status}); return *status; }
   int r = real(f, bitpix, naxis, naxes, status); g_trace.push_back({"crim", r}); return r;
 }
 extern "C" int ffppx(fitsfile* f, int dt, long* fp, LONGLONG n, void* a, int* status) {
   static auto real = (int (*)(fitsfile*, int, long*, LONGLONG, void*, int*))dlsym(RTLD_NEXT, "ffppx");
   if (!TOP) return real(f, dt, fp, n, a, status);
-  Depth d;
+  Depth d("ppx");
   if (inject_here()) { g_step_fired++; *status = WRITE_ERROR; g_trace.push_back({"ppx", *status}); return *status; }
   int r = real(f, dt, fp, n, a, status); g_trace.push_back({"ppx", r}); return r;
 }
 extern "C" int ffpky(fitsfile* f, int dt, const char* k, void* v, const char* c, int* status) {
   static auto real = (int (*)(fitsfile*, int, const char*, void*, const char*, int*))dlsym(RTLD_NEXT, "ffpky");
   if (!TOP) return real(f, dt, k, v, c, status);
-  Depth d;
+  Depth d("pky");
   if (inject_here()) { g_step_fired++; *status = WRITE_ERROR; g_trace.push_back({"pky", *status}); return *status; }
   int r = real(f, dt, k, v, c, status); g_trace.push_back({"pky", r}); return r;
 }
 extern "C" int ffuky(fitsfile* f, int dt, const char* k, void* v, const char* c, int* status) {
   static auto real = (int (*)(fitsfile*, int, const char*, void*, const char*, int*))dlsym(RTLD_NEXT, "ffuky");
   if (!TOP) return real(f, dt, k, v, c, status);
-  Depth d;
+  Depth d("uky");
   if (inject_here()) { g_step_fired++; *status = WRITE_ERROR; g_trace.push_back({"uky", *status}); return *status; }
   int r = real(f, dt, k, v, c, status); g_trace.push_back({"uky", r}); return r;
 }
 extern "C" int ffflus(fitsfile* f, int* status) {
   static auto real = (int (*)(fitsfile*, int*))dlsym(RTLD_NEXT, "ffflus");
   if (!TOP) return real(f, status);
-  Depth d;
+  Depth d("flus");
   if (inject_here()) { g_step_fired++; *status = WRITE_ERROR; g_trace.push_back({"flus", *status}); return *status; }
   int r = real(f, status); g_trace.push_back({"flus", r}); return r;
 }
 extern "C" int ffclos(fitsfile* f, int* status) {
   static auto real = (int (*)(fitsfile*, int*))dlsym(RTLD_NEXT, "ffclos");
   if (!TOP) return real(f, status);
-  Depth d;
+  Depth d("clos");
   if (inject_here()) {   // the handle is released and the data flushed, but the close reports an error (as a failing fclose does)
     g_step_fired++; int s = 0; real(f, &s); *status = FILE_NOT_CLOSED; g_trace.push_back({"clos", *status}); return *status;
   }
@@ -162,7 +164,7 @@ extern "C" int ffclos(fitsfile* f, int* status) {
 extern "C" int ffdelt(fitsfile* f, int* status) {
   static auto real = (int (*)(fitsfile*, int*))dlsym(RTLD_NEXT, "ffdelt");
   if (!TOP) return real(f, status);
-  Depth d;
+  Depth d("delt");
   int r = real(f, status); g_trace.push_back({"delt", r}); return r;
 }
 
@@ -223,10 +225,22 @@ static int model_here(long n, bool every_byte, Rng& r) {
 
 struct Gen { std::vector<uint32_t> ord; std::vector<std::vector<double>> kn; std::vector<float> coef; };
 
-// classes: 0 minimal (about one block per HDU), 1 small, 2 medium (<= 20 blocks), 3 large (40..120 blocks), 4 huge (several hundred blocks)
+// classes: 0 minimal (about one block per HDU), 1 small, 2 medium (<= 20 blocks), 3 large (40..120 blocks), 4 huge (several hundred blocks),
+// 5 header overflow: a coefficient array larger than cfitsio's 40 block buffers (n^nd coefficients, n = 36 quick / 47 thorough for nd = 3)
+//   which gets 30 aux keys, so that the primary header needs a second block after the image has been written
+static bool g_thorough = false;
 static void gen_table(Rng& r, Gen& g, int nd, int cls) {
   g.ord.assign(nd, 0);
   for (auto& o : g.ord) o = r.range(0, cls == 0 ? 2 : 4);
+  if (cls == 5) {
+    int n = g_thorough ? 47 : 36;
+    g.kn.clear();
+    for (int i = 0; i < nd; i++) g.kn.push_back(gen_knots(r, g.ord[i], n - (int)g.ord[i] - 1, r.range(0, 3)));
+    g.coef.resize(ncoef(g.ord, g.kn));
+    for (auto& c : g.coef) c = (float)(r.unit() * 2 - 1);
+    stats["ndim_" + std::to_string(nd)]++; stats["class_5"]++;
+    return;
+  }
   uint64_t target;  // coefficient count
   switch (cls) { case 0: target = 1 + r.below(8); break; case 1: target = 50 + r.below(600); break; case 2: target = 800 + r.below(6000); break;
                  case 3: target = 30000 + r.below(50000); break; default: target = 220000 + r.below(150000); break; }
@@ -290,7 +304,7 @@ static void emit_E(const Table& t, int variant, const Run& R, const std::string&
 
 int main(int argc, char** argv) {
   if (argc < 6) { fprintf(stderr, "usage: c08_harness <quick|thorough> <dir> <cases> <impl> <stats>\n"); return 2; }
-  bool thorough = std::string(argv[1]) == "thorough";
+  bool thorough = std::string(argv[1]) == "thorough"; g_thorough = thorough;
   g_dir = argv[2];
   fc = fopen(argv[3], "w"); fi = fopen(argv[4], "w");
   if (!freopen((g_dir + "/cfitsio_stderr.txt").c_str(), "w", stderr)) return 3;
@@ -304,6 +318,7 @@ int main(int argc, char** argv) {
   if (thorough) {
     for (int nd = 1; nd <= 5; nd++) { plan.push_back({nd, 3}); plan.push_back({nd, 4}); }
   }
+  plan.push_back({3, 5});   // header overflow after the image has been written (cfitsio shifts the data by one block)
 
   long total_faults = 0, total_fired = 0;
   for (size_t it = 0; it < plan.size(); it++) {
@@ -332,9 +347,10 @@ int main(int argc, char** argv) {
     if (xm <= 1) { for (int i = 0; i < 2 * nd; i++) t.extents[0][i] += (r.unit() - 0.5); stats["extents_nondefault"]++; }
     bool no_extents = false; double* saved_ext0 = nullptr; double** saved_ext = nullptr;
     if (xm == 5) { no_extents = true; saved_ext = t.extents; t.extents = nullptr; stats["no_extents"]++; }
-    int na = r.range(0, 3) == 0 ? r.range(1, 3) : 0;
+    int na = cls == 5 ? 30 : r.range(0, 3) == 0 ? r.range(1, 3) : 0;
     for (int i = 0; i < na; i++) { std::string k = "AUXK" + std::to_string(i); std::string v = i == 0 ? "some value" : std::to_string(r.below(100000)); t.write_key(k.c_str(), v); }
     stats["naux_" + std::to_string(na)]++;
+    const bool sweep_all = thorough || cls == 5;   // every op index gets its faults
 
     // ---- healthy write with the op log recorded
     g_fail_at = -1; g_step_fail = -1; g_fail_realloc = -1; g_keep = true;
@@ -342,6 +358,8 @@ int main(int argc, char** argv) {
     g_keep = false;
     std::vector<Op> ops; for (auto& o : g_log) if (o.kind == 'W' || o.kind == 'F' || o.kind == 'C' || o.kind == 'T') ops.push_back(o);
     std::vector<StepRec> htrace = H.trace;
+    if (getenv("C08_OPLOG")) { FILE* fo = fopen((std::string(getenv("C08_OPLOG")) + "." + std::to_string(it)).c_str(), "w");
+      for (size_t k = 0; k < ops.size(); k++) fprintf(fo, "%zu %c off=%ld len=%ld step=%s#%d\n", k, ops[k].kind, ops[k].off, ops[k].len, ops[k].step, ops[k].stepno); fclose(fo); }
     std::vector<unsigned char> F; slurp(path, F);
     // the table as the model needs it: numbers as bit patterns, the cards the model does not generate as hex data
     {
@@ -418,11 +436,77 @@ int main(int argc, char** argv) {
         fprintf(fc, "Z %zu\n", b); fprintf(fi, "%s\n", read_verdict(crash, t).c_str()); stats["hole_zero_block"]++;
       }
     }
+    // ---- mutated files: the tie of the reader's validation (counts, finite and non-decreasing knots). These are NOT crash
+    //      states: the final file with a knot vector, an ORDERn value or a knot count replaced; model and implementation
+    //      must give the same verdict (rej / eq / diff), nothing else is asked of them.
+    {
+      auto rup = [](size_t n) { return (n + 2879) / 2880 * 2880; };
+      auto be64 = [](uint64_t w) { std::vector<unsigned char> b(8); for (int j = 0; j < 8; j++) b[j] = (unsigned char)(w >> (56 - 8 * j)); return b; };
+      auto bytes_of = [&](const std::vector<uint64_t>& v) { std::vector<unsigned char> b; for (uint64_t w : v) { auto x = be64(w); b.insert(b.end(), x.begin(), x.end()); } return b; };
+      typedef std::vector<std::pair<size_t, std::vector<unsigned char>>> Patches;
+      auto emitX = [&](const Patches& ps, const char* kind) {
+        std::vector<unsigned char> Mf = F;
+        for (auto& q : ps) { if (q.first + q.second.size() > Mf.size()) return; memcpy(Mf.data() + q.first, q.second.data(), q.second.size()); }
+        spit(crash, Mf.data(), Mf.size());
+        fprintf(fc, "X"); for (auto& q : ps) fprintf(fc, " %zu %s", q.first, hex(q.second.data(), q.second.size()).c_str()); fprintf(fc, "\n");
+        fprintf(fi, "%s kind=%s\n", read_verdict(crash, t).c_str(), kind); stats[std::string("mutated_") + kind]++;
+      };
+      size_t cend = 0; while (80 * (cend + 1) <= F.size() && memcmp(F.data() + 80 * cend, "END     ", 8)) cend++;
+      uint64_t ncf = t.strides[0] * t.naxes[0];
+      size_t pos = (cend / 36 + 1) * 2880 + rup(4 * ncf);
+      // a sorted ladder of n finite doubles across zero: negative normals and subnormals, -0, +0, positive subnormals, normals, DBL_MAX
+      auto ladder = [&](size_t n) {
+        std::vector<double> v;
+        for (size_t j = 0; j < n; j++) {
+          uint64_t mag; switch (r.below(6)) { case 0: mag = 0; break; case 1: mag = 1 + r.below(4); break; case 2: mag = r.next() & 0x000fffffffffffffULL; break;
+            case 3: mag = 0x7fefffffffffffffULL - r.below(3); break; default: mag = ((uint64_t)r.range(1, 2046) << 52) | (r.next() & 0x000fffffffffffffULL); break; }
+          uint64_t w = mag | (r.coin() ? 0x8000000000000000ULL : 0); double d; memcpy(&d, &w, 8); v.push_back(d);
+        }
+        std::sort(v.begin(), v.end());
+        std::vector<uint64_t> b; for (double d : v) b.push_back(bits(d)); return b;
+      };
+      uint32_t only = (!thorough && F.size() / 2880 > 100) ? (uint32_t)r.below(t.ndim) : t.ndim;   // huge files in the quick tier: one dimension
+      for (uint32_t i = 0; i < t.ndim; i++) {
+        size_t khdr = pos, kdat = pos + 2880; uint64_t nk = t.nknots[i]; pos += 2880 + rup(8 * nk);
+        if (only != t.ndim && only != i) continue;
+        if (kdat + 8 * nk > F.size() || memcmp(F.data() + khdr, "XTENSION", 8)) { stats["mutated_layout_unexpected"]++; break; }
+        std::vector<uint64_t> V(nk); for (uint64_t j = 0; j < nk; j++) V[j] = bits(t.knots[i][j]);
+        static const uint64_t nonfin[] = {0x7ff8000000000000ULL, 0x7ff0000000000000ULL, 0xfff0000000000000ULL, 0x7ff0000000000001ULL, 0xfff8000000000000ULL, 0x7fffffffffffffffULL};
+        { uint64_t j = r.below(nk); emitX({{kdat + 8 * j, be64(nonfin[r.below(6)])}}, "nonfinite"); }
+        { uint64_t j = r.below(nk - 1); std::vector<uint64_t> two = {V[j + 1], V[j]}; emitX({{kdat + 8 * j, bytes_of(two)}}, "swap"); }
+        { uint64_t j = 1 + r.below(nk - 1); uint64_t x = V[j - 1];
+          uint64_t below = (x << 1) == 0 ? 0x8000000000000001ULL : (x >> 63) ? x + 1 : x - 1;   // the next double below k[j-1]
+          emitX({{kdat + 8 * j, be64(below)}}, "ulp_below"); emitX({{kdat + 8 * j, be64(x)}}, "repeated");
+          emitX({{kdat + 8 * j, be64(x ^ ((x << 1) == 0 ? 0x8000000000000000ULL : 0))}}, "repeated_zero_sign"); }
+        if (nk <= 3000) {
+          std::vector<uint64_t> Zs(nk); for (uint64_t j = 0; j < nk; j++) Zs[j] = (j % 2) ? 0x8000000000000000ULL : 0; emitX({{kdat, bytes_of(Zs)}}, "signed_zeros");
+          std::vector<uint64_t> L = ladder(nk); emitX({{kdat, bytes_of(L)}}, "ladder");
+          uint64_t j = r.below(nk - 1); std::swap(L[j], L[j + 1]); emitX({{kdat, bytes_of(L)}}, "ladder_swapped");
+        }
+        // ORDERi card (value in column 30) and the NAXIS1 card of the KNOTSi header (4th card, value field columns 11..30)
+        char key[16]; snprintf(key, sizeof key, "%-8s", ("ORDER" + std::to_string(i)).c_str());
+        size_t oc = 0; while (oc < cend && memcmp(F.data() + 80 * oc, key, 8)) oc++;
+        if (oc == cend || t.order[i] > 9) { stats["mutated_layout_unexpected"]++; continue; }
+        auto digit = [&](uint32_t o) { return std::vector<unsigned char>(1, (unsigned char)('0' + o)); };
+        auto field = [&](uint64_t n) { char b[32]; snprintf(b, sizeof b, "%20llu", (unsigned long long)n); return std::vector<unsigned char>(b, b + 20); };
+        { uint32_t o2 = (t.order[i] + 1 + (uint32_t)r.below(9)) % 10; emitX({{80 * oc + 29, digit(o2)}}, "order_changed"); }
+        // order and number of knots changed together (naxes stays): consistent counts, enough knots or not
+        for (int o2 = 0; o2 <= 9; o2++) {
+          uint64_t nk2 = t.naxes[i] + o2 + 1;
+          if ((uint32_t)o2 == t.order[i] || rup(8 * nk2) != rup(8 * nk) || nk2 > 3000) continue;
+          bool enough = nk2 >= 2 * (uint64_t)o2 + 2;
+          if (!enough && o2 > (int)t.naxes[i] + 1) continue;   // one or two cases just below the limit are enough
+          emitX({{80 * oc + 29, digit(o2)}, {khdr + 3 * 80 + 10, field(nk2)}, {kdat, bytes_of(ladder(nk2))}}, enough ? "order_and_knots_consistent" : "too_few_knots");
+          // the same with the knot count off by one
+          if (o2 == (int)t.order[i] + 1 || o2 + 1 == (int)t.order[i]) emitX({{80 * oc + 29, digit(o2)}, {khdr + 3 * 80 + 10, field(nk2 + 1)}, {kdat, bytes_of(ladder(nk2 + 1))}}, "counts_off_by_one");
+        }
+      }
+    }
     // ---- libc faults: one failing operation per run
     {
       std::vector<int> idx;
       int n = (int)ops.size();
-      if (thorough || n <= 48) for (int k = 0; k < n; k++) idx.push_back(k);
+      if (sweep_all || n <= 48) for (int k = 0; k < n; k++) idx.push_back(k);
       else { for (int k = 0; k < 12; k++) idx.push_back(k); for (int k = n - 24; k < n; k++) idx.push_back(k); for (int j = 0; j < 12; j++) idx.push_back(12 + (int)r.below(n - 36)); }
       for (int k : idx) for (int kind = 0; kind < F_NKINDS; kind++) {
         char ok = ops[k].kind;
@@ -437,7 +521,7 @@ int main(int argc, char** argv) {
           total_faults++; total_fired += R.fired ? 1 : 0;
           stats[std::string("fault_") + kindname[kind]]++; if (R.fired) stats[std::string("fault_fired_") + kindname[kind]]++;
           stats[R.ret ? "fault_reported_failure" : "fault_reported_success"]++;
-          char tag[64]; snprintf(tag, sizeof tag, "libc:%s@%d", kindname[kind], k);
+          char tag[64]; snprintf(tag, sizeof tag, "libc:%s/%s@%d", kindname[kind], ops[k].step, k);
           emit_E(t, variant, R, read_verdict(path, t), tag);
         }
       }
